@@ -384,8 +384,8 @@ func (r *Reader) VerifyTOC(tocDigest digest.Digest) (TOCEntryVerifier, error) {
 // Verifiers returns TOCEntryVerifier of this chunk. Use VerifyTOC instead in most cases
 // because this doesn't verify TOC.
 func (r *Reader) Verifiers() (TOCEntryVerifier, error) {
-	chunkDigestMap := make(map[int64]digest.Digest) // map from chunk offset to the chunk digest
-	regDigestMap := make(map[int64]digest.Digest)   // map from chunk offset to the reg file digest
+	chunkDigestMap := make(map[chunkKey]digest.Digest) // map from chunk position to the chunk digest
+	regDigestMap := make(map[chunkKey]digest.Digest)   // map from chunk position to the reg file digest
 	var chunkDigestMapIncomplete bool
 	var regDigestMapIncomplete bool
 	var containsChunk bool
@@ -394,11 +394,13 @@ func (r *Reader) Verifiers() (TOCEntryVerifier, error) {
 			continue
 		}
 
-		// offset must be unique in stargz blob
-		_, dOK := chunkDigestMap[e.Offset]
-		_, rOK := regDigestMap[e.Offset]
+		// The position (offset of the compression stream and, when several entries share one
+		// stream because of MinChunkSize, the offset inside it) must be unique in stargz blob
+		key := chunkKey{e.Offset, e.InnerOffset}
+		_, dOK := chunkDigestMap[key]
+		_, rOK := regDigestMap[key]
 		if dOK || rOK {
-			return nil, fmt.Errorf("offset %d found twice", e.Offset)
+			return nil, fmt.Errorf("offset %d (inner offset %d) found twice", e.Offset, e.InnerOffset)
 		}
 
 		if e.Type == "reg" {
@@ -412,7 +414,7 @@ func (r *Reader) Verifiers() (TOCEntryVerifier, error) {
 				if err != nil {
 					return nil, fmt.Errorf("failed to parse regular file digest %q: %w", e.Digest, err)
 				}
-				regDigestMap[e.Offset] = d
+				regDigestMap[key] = d
 			} else {
 				regDigestMapIncomplete = true
 			}
@@ -427,7 +429,7 @@ func (r *Reader) Verifiers() (TOCEntryVerifier, error) {
 			if err != nil {
 				return nil, fmt.Errorf("failed to parse chunk digest %q: %w", e.ChunkDigest, err)
 			}
-			chunkDigestMap[e.Offset] = d
+			chunkDigestMap[key] = d
 		} else {
 			chunkDigestMapIncomplete = true
 		}
@@ -448,15 +450,23 @@ func (r *Reader) Verifiers() (TOCEntryVerifier, error) {
 // verifier is an implementation of TOCEntryVerifier which holds verifiers keyed by
 // offset of the chunk.
 type verifier struct {
-	digestMap   map[int64]digest.Digest
+	digestMap   map[chunkKey]digest.Digest
 	digestMapMu sync.Mutex
+}
+
+// chunkKey is the position of the payload of a "reg" or "chunk" entry: the offset of the
+// compression stream holding it and its offset in that uncompressed stream (non-zero only
+// for blobs built with MinChunkSize, where several entries share one stream).
+type chunkKey struct {
+	offset      int64
+	innerOffset int64
 }
 
 // Verifier returns a content verifier specified by TOCEntry.
 func (v *verifier) Verifier(ce *TOCEntry) (digest.Verifier, error) {
 	v.digestMapMu.Lock()
 	defer v.digestMapMu.Unlock()
-	d, ok := v.digestMap[ce.Offset]
+	d, ok := v.digestMap[chunkKey{ce.Offset, ce.InnerOffset}]
 	if !ok {
 		return nil, fmt.Errorf("verifier for offset=%d,size=%d hasn't been registered",
 			ce.Offset, ce.ChunkSize)
